@@ -176,7 +176,7 @@ mutant('C19', 'motor-i0-equals-imax-accepted', DC, "if no_load_electric_current 
 mutant('C19', 'motor-imax-allows-zero', DC, "if maximum_electric_current.value <= 0:", "if maximum_electric_current.value < 0:", 'C19.params')
 mutant('C19', 'helix-90-accepted', HG, "if helix_angle >= Angle(90, 'deg'):", "if helix_angle > Angle(90, 'deg'):", 'C19.params')
 mutant('C19', 'helix-compared-raw', HG, "if helix_angle >= Angle(90, 'deg'):", "if helix_angle.value >= 90:", 'C19.params')
-mutant('C19', 'pwm-setter-and', DC, "if (pwm > 1) or (pwm < -1):", "if (pwm > 1) and (pwm < -1):", 'C19.params')
+mutant('C19', 'pwm-setter-and', DC, "if not (-1 <= pwm <= 1):", "if not (-1 <= pwm or pwm <= 1):", 'C19.params')
 mutant('C19', 'worm-starts-zero', WG, "if n_starts < 1:", "if n_starts < 0:", 'C19.params')
 mutant('C19', 'elastic-modulus-zero', MB, "if elastic_modulus.value <= 0:", "if elastic_modulus.value < 0:", 'C19.params')
 mutant('C19', 'value-field-written-by-operator', UN, """        if other <= 0:
@@ -501,7 +501,54 @@ mutant('C14', 'control-after-motor-law', SV, "        self._compute_motor_contro
 mutant('C14', 'control-skipped-while-locked', SV, "        self._compute_motor_control(motor_control=motor_control)\n", "        if not self.__powertrain_is_locked:\n            self._compute_motor_control(motor_control=motor_control)\n", 'C14.once')
 mutant('C14', 'control-twice', SV, "        self._compute_motor_control(motor_control=motor_control)\n", "        self._compute_motor_control(motor_control=motor_control)\n        self._compute_motor_control(motor_control=motor_control)\n", 'C14.once')
 mutant('C14', 'control-after-record', SV, PIPE, PIPE.replace("        self._compute_motor_control(motor_control=motor_control)\n", "") + "        self._compute_motor_control(motor_control=motor_control)\n", 'C14.once')
-mutant('C14', 'pwm-setter-and', DC, "if (pwm > 1) or (pwm < -1):", "if (pwm > 1) and (pwm < -1):", 'C14.range')
+mutant('C14', 'pwm-setter-and', DC, "if not (-1 <= pwm <= 1):", "if not (-1 <= pwm or pwm <= 1):", 'C14.range')
+mutant('C14', 'pwm-setter-nan-transparent (pre-fix shape)', DC, "if not (-1 <= pwm <= 1):", "if (pwm > 1) or (pwm < -1):", 'C14.range')
+benign('C14', 'pwm-setter-isnan-form', DC, "if not (-1 <= pwm <= 1):", "if math.isnan(pwm) or pwm > 1 or pwm < -1:")
+_APPLY_OLD = """        pwm_values = [rule.apply() for rule in self.__rules]
+        applied_rules = sum(
+            [pwm_value is not None for pwm_value in pwm_values]
+        )
+        if applied_rules >= 2:
+            raise ValueError(
+                "At least two rules are simultaneously applicable. Check PWM "
+                "rules conditions."
+            )
+        elif applied_rules == 1:
+            pwm = [
+                self._saturate_pwm(pwm_value)
+                for pwm_value in pwm_values if pwm_value is not None
+            ][0]
+        else:
+            pwm = 1
+"""
+benign('C14', 'apply-rules-as-match', 'gearpy/motor_control/pwm_control.py', _APPLY_OLD, """        proposals = [v for v in (rule.apply() for rule in self.__rules) if v is not None]
+        match proposals:
+            case []:
+                pwm = 1
+            case [single]:
+                pwm = self._saturate_pwm(single)
+            case [_, _, *_]:
+                raise ValueError("At least two rules are simultaneously applicable.")
+""")
+benign('C14', 'apply-rules-as-loop', 'gearpy/motor_control/pwm_control.py', _APPLY_OLD, """        proposals = []
+        for rule in self.__rules:
+            value = rule.apply()
+            if value is not None:
+                proposals.append(value)
+        if len(proposals) > 1:
+            raise ValueError("At least two rules are simultaneously applicable.")
+        pwm = self._saturate_pwm(proposals[0]) if proposals else 1
+""")
+mutant('C14', 'apply-rules-match-exactly-two', 'gearpy/motor_control/pwm_control.py', _APPLY_OLD, """        proposals = [v for v in (rule.apply() for rule in self.__rules) if v is not None]
+        pwm = 1
+        match proposals:
+            case [single]:
+                pwm = self._saturate_pwm(single)
+            case [_, _]:
+                raise ValueError("At least two rules are simultaneously applicable.")
+""", 'C14.shape')
+mutant('C14', 'saturate-abs-to-plus-one', 'gearpy/motor_control/pwm_control.py', "        return min(max(pwm, -1), 1)\n", "        if abs(pwm) > 1:\n            return 1\n        return pwm\n", 'C14.clip')
+benign('C14', 'saturate-if-chain', 'gearpy/motor_control/pwm_control.py', "        return min(max(pwm, -1), 1)\n", "        if pwm > 1:\n            return 1\n        if pwm < -1:\n            return -1\n        return pwm\n")
 mutant('C14', 'conflict-swallowed', SV, "        if motor_control is not None:\n            motor_control.apply_rules()", "        if motor_control is not None:\n            try:\n                motor_control.apply_rules()\n            except ValueError:\n                pass", 'C14')
 benign('C14', 'count-with-len', PC, "        applied_rules = sum(\n            [pwm_value is not None for pwm_value in pwm_values]\n        )", "        applied_rules = len(\n            [pwm_value for pwm_value in pwm_values if pwm_value is not None]\n        )")
 benign('C14', 'saturation-rewritten', PC, "return min(max(pwm, -1), 1)", "return max(-1, min(1, pwm))")
